@@ -18,7 +18,7 @@ from cryptoparser.common.base import (
     StringEnumParsable,
     VariantParsable
 )
-from cryptoparser.common.exception import InvalidType
+from cryptoparser.common.exception import InvalidType, NotEnoughData
 
 from cryptoparser.common.field import (
     FieldValueComponentParsable,
@@ -340,7 +340,7 @@ class DnsRecordTxtValueTlsRpt(FieldsSemicolonSeparated):
     )
 
 
-class SpfVersion(StringEnumParsable, enum.Enum):
+class SpfVersion(StringEnumCaseInsensitiveParsable, enum.Enum):
     SPF1 = FieldValueStringEnumParams(
         code='spf1',
         human_readable_name='SPF1',
@@ -351,6 +351,10 @@ class DnsRecordTxtValueSpfVersion(FieldValueComponentParsable):
     @classmethod
     def get_canonical_name(cls):
         return 'v'
+
+    @classmethod
+    def _check_name(cls, name):
+        cls._check_name_insensitive(name)
 
     @classmethod
     def _get_value_class(cls):
@@ -455,6 +459,10 @@ class DnsRecordTxtValueSpfModifierKnownBase(FieldValueComponentParsable):
         return cls.get_modifier().value.code
 
     @classmethod
+    def _check_name(cls, name):
+        cls._check_name_insensitive(name)
+
+    @classmethod
     def _get_value_class(cls):
         return SpfDomainSpec
 
@@ -490,11 +498,13 @@ class DnsRecordTxtValueSpfDirectiveBase(ParsableBase, Serializable):
         except InvalidValue:
             pass
 
-        mechanism = cls.get_mechanism()
+        mechanism_name = cls.get_mechanism().value.code
         try:
-            parser.parse_string('mechanism', mechanism.value.code)
-        except InvalidValue as e:
+            parser.parse_string_by_length('mechanism', len(mechanism_name), len(mechanism_name))
+        except (InvalidValue, NotEnoughData) as e:
             six.raise_from(InvalidType, e)
+        if parser['mechanism'].lower() != mechanism_name.lower():  # mechanism names are case-insensitive
+            raise InvalidType()
 
         return parser
 
@@ -884,6 +894,8 @@ class DnsRecordTxtValueSpf(ParsableBase, Serializable):
         terms = []
         while parser.unparsed_length:
             parser.parse_separator(' ')
+            if not parser.unparsed_length:  # spaces may follow the last term
+                break
 
             try:
                 parser.parse_parsable('term', DnsRecordTxtValueSpfVariantParsable)
